@@ -9,6 +9,7 @@ import Driver.TagP
 import Driver.PassP
 import Driver.TreeP
 import Driver.ResP
+import Driver.WidthP
 /-! Line-protocol driver (E3): first word selects a sub-protocol, one output line per input line.
     Imports only core-only Model/Spec modules so that it links as a `lean_exe`. -/
 open Gomjml
@@ -37,6 +38,8 @@ def handle (line : String) : String :=
   | "tag" :: args => Driver.TagP.handle args
   | "tree" :: args => Driver.TreeP.handle args
   | "res" :: args => Driver.ResP.handle args
+  | "width" :: args => Driver.WidthP.handle args
+  | "widthspec" :: args => Driver.WidthP.handleSpec args
   | "amp" :: args => Driver.PassP.handle "amp" args
   | "ent" :: args => Driver.PassP.handle "ent" args
   | "strip" :: args => Driver.PassP.handle "strip" args
